@@ -37,18 +37,35 @@ class Prop:
         return []
 
 
-def pinned_theorems(pid):
-    """the theorem names of a property = the names pinned in Properties/Pin<id>.v"""
+def pinned_theorems(mod):
+    """the theorem names pinned in Properties/Pin<mod>.v"""
     import os
-    path = os.path.join(os.path.dirname(os.path.dirname(os.path.abspath(__file__))), "coq", "Properties", "Pin%s.v" % pid)
+    path = os.path.join(os.path.dirname(os.path.dirname(os.path.abspath(__file__))), "coq", "Properties", "Pin%s.v" % mod)
     if not os.path.exists(path):
         return []
-    return re.findall(r"^Check %s\.(\w+)" % pid, open(path).read(), flags=re.M)
+    return re.findall(r"^Check %s\.(\w+)" % mod, open(path).read(), flags=re.M)
+
+
+# theorems that live in another property's module (word-level lifts proved together with C05)
+MODULES = {
+    "C01": (["C01"], [("C05", "C01_words")]),
+    "C05": (["C05", "C05r"], []),
+    "C13": (["C13"], [("C05", "C13_leading"), ("C05", "C13_leading_pass")]),
+    "C16": (["C16", "C16b"], []),
+    "C17": (["C17"], [("C03", "C03_parse_total"), ("C03", "C03_compile_total")]),
+}
+ELSEWHERE = {("C05", "C01_words"), ("C05", "C13_leading"), ("C05", "C13_leading_pass")}
 
 
 def register(cls):
     obj = cls()
-    obj.theorems = pinned_theorems(cls.id)
+    mods, extra = MODULES.get(cls.id, ([cls.id], []))
+    ths = []
+    for m in mods:
+        ths += ["%s.%s" % (m, n) for n in pinned_theorems(m) if (m, n) not in ELSEWHERE or (m, n) in extra]
+    ths += ["%s.%s" % (m, n) for (m, n) in extra if n in pinned_theorems(m)]
+    obj.theorems = ths
+    obj.modules = sorted(set(mods + [m for m, _ in extra]))
     PROPS[cls.id] = obj
     return cls
 
@@ -136,6 +153,17 @@ class C01(Prop):
             elif r < 0.25:
                 ws.insert(rng.randrange(len(ws) + 1), rng.choice(C01_WORDS[:8]))
             out.append((P(" ".join(ws)), "random-wellformed" if r >= 0.25 else "random-damaged"))
+        for d in [64, 127, 128, 129, 150, 200]:
+            out.append((P("( " * d + "-true -o -false" + " )" * d), "deep-nesting"))
+            out.append((P("! " * d + "-true"), "deep-nesting"))
+            out.append((P("( " * d + "-true" + " )" * (d - 1)), "deep-nesting"))
+            out.append((P("-print" + " -true" * d), "deep-nesting"))
+        # many rejected parenthesised inputs first, valid ones afterwards, in every process
+        for _ in range(40):
+            for bad in ["( -true", "( )", "( ( -true -o", "( -true , )", "-false -a ( ! )", "( ( ( -true ) -a"]:
+                out.append((P(bad), "rejected-parens"))
+            out.append((P("( -true )"), "after-rejected"))
+            out.append((P("( ( -name x ) -o ( -false ) )"), "after-rejected"))
         return out
 
     def project(self, case, line):
@@ -173,7 +201,34 @@ class C02(Prop):
             for w in items[1:]:
                 s_ += rng.choice([" ", " -o ", " -a ", " ! "]) + w
             out.append((PC(s_ + rng.choice(["", " -print", " -print0", " -quit"])), "shared-patterns"))
+        for _ in range(n // 20):
+            k = rng.randint(4, 12)
+            names = " -o ".join("%s n%d" % (rng.choice(["-name", "-iname", "-path"]), i) for i in range(k))
+            acts = " ".join(rng.choice(["-fprint o%d" % rng.randint(0, 3), "-print0", "-fprintf f '%p'", "-print", "-printf '%s\\n'"]) for _ in range(rng.randint(1, 4)))
+            out.append((PC("( %s ) %s" % (names, acts)), "many-resources"))
         return out
+
+    def sequences(self, tier, rng):
+        """compile / sleep past a second boundary / compile again, all in one process"""
+        tt = ["-mmin +5 -amin -10 -o -ctime 1 -name x", "-amin +1s -print", "-mtime -2 -fprint o -o -atime 3"]
+        seq = []
+        for t in tt:
+            seq.append(PC(t))
+        seq.append("Z 1100")
+        for t in tt:
+            seq.append(PC(t))
+        seq.append("Z 1100")
+        seq.append(PC(tt[0]))
+        # a compile that fails after a time test was translated, then a good one a second later
+        seq.append(PC("-mmin -5 -ls"))
+        seq.append(PC("( -name core -o -atime +30 ) -printf '%p %M\\n'"))
+        seq.append("Z 1100")
+        seq.append(PC("-mmin -5"))
+        seq.append(PC("-name '*.c' -threads 4 -print"))
+        seq.append(PC("-name '*.c' -threads 4 -print"))
+        seq.append(PC("-type f -depth"))
+        seq.append(PC("-type f -depth"))
+        return [seq]
 
     def nontrivial(self, case, line):
         return " COK " in line
@@ -238,6 +293,12 @@ class C03(Prop):
             out.append((PC("( " * d + "-true" + " )" * d), "nesting"))
             out.append((PC("! " * d + "-true"), "nesting"))
             out.append((PC("( " * d + "-true" + " )" * (d - 1)), "nesting"))
+        for d in [10, 16, 20, 24, 32, 64]:
+            out.append((PC("( " * d + "-name core"), "unclosed-nesting"))
+            out.append((PC("(" * d), "unclosed-nesting"))
+            out.append((PC("-type f -a ! " + "( " * d + "-name core"), "unclosed-nesting"))
+            out.append((PC("! " * d), "unclosed-nesting"))
+            out.append((PC("-true -o " * d), "unclosed-nesting"))
         for n in [500, 4000]:
             out.append((PC("-name " + "a" * n), "long"))
             out.append((PC(" -o ".join(["-true"] * (n // 8))), "long"))
@@ -266,6 +327,8 @@ class C03(Prop):
     def oracle(self, case, impl, model):
         if "PANIC" in impl or "NO-OUTPUT" in impl:
             return "the library panics (or dies) on this input instead of returning a value"
+        if impl.startswith("HANG"):
+            return "the library does not return within the time limit on this input (or on the one right before it)"
         return None
 
 
@@ -436,6 +499,10 @@ class C05(Prop):
                 if len(m) > 1:
                     out.append((P(" ".join(m[:-1])), "missing-argument"))
                     out.append((P(" ".join(m[:-1]) + " )"), "missing-argument"))
+        for lead in ["-depth", "-threads 4", "-depth -threads 2"]:
+            for nxt in ["-amin 5", "-atime +2", "-anewer ref", "-and -true", "-a -true", "-a-print", "-and-true", "-a-name x", "-a", "-and", "-a ", "-o -true"]:
+                out.append((P(lead + " " + nxt), "after-leading-option"))
+                out.append((P(lead + "  " + nxt + " -o -name x -print"), "after-leading-option"))
         kws = gen.ALL_KEYWORDS + ["-a", "-and", "-o", "-or"]
         for a in kws:
             for b in kws:
@@ -446,6 +513,13 @@ class C05(Prop):
         for a in kws:
             for ext in ["x", "0", "f", "-", "s"]:
                 out.append((P(a + ext + " 5"), "keyword-extension"))
+        for u in ["\u00a0", "\u3000", "\x0b", "\x0c", "\u0085", "\u2028", "\u2003"]:
+            for kw in gen.STR_TESTS_OK + ["-regex", "-user", "-fprint", "-fls"]:
+                out.append((P("%s foo%sbar" % (kw, u)), "unicode-space"))
+                out.append((P("( %s a%sb -o -true )" % (kw, u)), "unicode-space"))
+            out.append((P("-xattr-match user.tag foo%sbar" % u), "unicode-space"))
+            out.append((P("-printf %%p%s%%s" % u), "unicode-space"))
+            out.append((P("-true%s-false" % u), "unicode-space"))
         for w in ["foo", "-foo", "nope", "--", "-", "true", "-TRUE", "-Print", "5", "'-true'"]:
             out.append((P(w), "non-keyword"))
             out.append((P("-true " + w), "non-keyword"))
@@ -513,13 +587,24 @@ class C06(Prop):
             self.groups.append([P(v) for v in vs])
             for v in vs:
                 out.append((P(v), "variant"))
-        for v in ["it's", 'a"b', "x y", "a'b c", "p)q", "tab\there"]:
+        for v in ["it's", 'a"b', "x y", "a'b c", "p)q", "tab\there", "foo\u00a0bar", "報告書\u3000最終版.txt", "v\x0bt", "f\x0cf", "n\u0085l", "l\u2028s", "dir\\"]:
             spell = [q for q in ["'" + v + "'" if "'" not in v else None, '"' + v + '"' if '"' not in v else None,
                                  v if not any(c in v for c in " \t\r\n)") and v[0] not in "\"'" else None] if q]
             for kw in ["-name", "-path", "-fprint", "-pool"]:
                 self.groups.append([P("%s %s -print" % (kw, q)) for q in spell] + [P("%s   %s\t-a -print" % (kw, spell[0]))])
                 for c in self.groups[-1]:
                     out.append((c, "quote-variant"))
+        for d in [2, 64, 128, 129, 160]:
+            base = "-name x -o -size +1k"
+            g = [P(base), P("( " * d + base + " )" * d), P("(" * d + base + ")" * d)]
+            self.groups.append(g)
+            out += [(c, "deep-redundant-parens") for c in g]
+        for _ in range(30):
+            for bad in ["( )", "( ( -name x -o ) )", "-true ( ( ( , -false ) ) )", "( -true"]:
+                out.append((P(bad), "rejected-parens"))
+            g = [P("-depth ( -name x ) -o ( -size +1k -print )"), P("-depth -name x -o -size +1k -print"), P("-depth (-name x) -or ((-size +1k -print))")]
+            self.groups.append(g)
+            out += [(c, "after-rejected") for c in g]
         blanks = ["", " ", "\t", "\n", "\r", " \t\r\n ", "   ", "-true"]
         self.groups.append([P(b) for b in blanks])
         for b in blanks:
@@ -575,6 +660,14 @@ class C07(Prop):
                             out.append((PC("%s %s%s%s" % (kw, sg, ds, u)), "time"))
                 out.append((PC("-threads %s -true" % ds), "threads"))
                 out.append((PC("-true -threads %s" % ds), "threads"))
+        for n in [0, 1, 7, 64, 2**32 - 1]:
+            for sfx in ["-depth", "-depth -uid 5", "-uid 5 -depth", "-a -depth -a -uid 5", "-depth -depth", "-threads %d" % (n + 1)]:
+                out.append((PC("-threads %d %s" % (n, sfx)), "threads-with-options"))
+                out.append((PC("-uid 5 -threads %d %s" % (n, sfx)), "threads-with-options"))
+        for kw in gen.U32_KW + gen.U64_KW + ["-size", "-amin", "-mtime", "-threads"]:
+            for q in ["'", '"']:
+                for body in ["5", "0x10", "1e6", "42 94967296", "10 G", "+1.5G", "5kb", "-5 d", "18446744073709551615 1", "07", " 7", "7 "]:
+                    out.append((PC("%s %s%s%s" % (kw, q, body, q)), "quoted-numeric"))
         return out
 
     def nontrivial(self, case, line):
@@ -615,6 +708,9 @@ class C08(Prop):
         for _ in range(5000 if tier == "quick" else 100000):
             k = rng.choice([3, 4])
             out.append((P("-perm %s%s" % (rng.choice(["", "-", "/"]), ",".join(rng.choice(CLAUSES) for _ in range(k)))), "clause%d" % k))
+        for _ in range(3000 if tier == "quick" else 60000):
+            a, b = rng.choice(CLAUSES), rng.choice(CLAUSES)
+            out.append((P("-perm %s%s,%s,%s" % (rng.choice(["", "-", "/"]), a, b, a)), "clause-repeat"))
         for bad in ["8", "77", "17777", "20000", "777777777777", "0777x", "777,u+x", "u+x,777", "u+rq", "u+", "+r", "u", "u+r,", ",u+r", "a=rwxs", ""]:
             for pre in ["", "-", "/"]:
                 out.append((P("-perm " + pre + bad), "malformed"))
@@ -671,6 +767,16 @@ class C09(Prop):
             out.append(("TC 0 - 2f " + t, "random-tree"))
             ws = gen.expr_words(rng, 3, hostile=0.0)
             out.append((PC(" ".join(ws)), "random-parsed"))
+        for d in [100, 128, 129, 140, 200]:
+            out.append((PC("-print" + " -true" * d), "deep-chain"))
+            out.append((PC("-false -o " + "! " * d + "-quit"), "deep-chain"))
+            out.append((PC("-true" * 1 + " -o -true" * d + " -o -fprint f"), "deep-chain"))
+        # state carried between compilations in one process: alternate action / no action
+        for _ in range(200):
+            out.append((PC("-name a -print"), "alternating"))
+            out.append((PC("-name a -o -name b"), "alternating"))
+            out.append((PC("! -name c"), "alternating"))
+            out.append((PC("! -quit"), "alternating"))
         return out
 
     def nontrivial(self, case, line):
@@ -767,7 +873,7 @@ class C11(Prop):
 
     def cases(self, tier, rng):
         out = []
-        pats = ["foo", "Foo", "f*", "f?o", "[f]oo", "a\\b", "core", "README", "x y", "zz"]
+        pats = ["foo", "Foo", "f*", "f?o", "[f]oo", "a\\b", "core", "README", "x y", "zz", "ЖУРНАЛ", "ÉTÉ*", "123", "*.*"]
         kws = ["-name", "-iname", "-path", "-ipath"]
         acts = ["-print", "-print0", "-printf '%p\\n'", "-fprint o1", "-fprint0 o1", "-fprint o2", "-print-file-fid", "-printf '%p'"]
         for _ in range(4000 if tier == "quick" else 80000):
@@ -916,9 +1022,15 @@ class C14(Prop):
         for s in singles:
             for ctx in ["%s", "a%sb", "%s%s", "x%s", "%sy", "%%%s", "\\\\%s"]:
                 out.append((P("-printf '" + ctx.replace("%s", s) + "'"), "single"))
+        for body in ["xattr:xattr:lov", "xattr:xattr:xattr:a", "xattr:fid", "xattr:a:b", "fid}", "{fid}", "xattr::a", "xattr:a}", "projid:x", "xattr:é", "XATTR:a"]:
+            for ctx in ["%{B}", "%p %{B}\\n", "a%{B}b", "%{B}%{B}"]:
+                out.append((P("-printf '" + ctx.replace("B", body) + "'"), "braced"))
+        for lit in ["é", "éa", "taille→ ", "→", "日本", "a💾b", "\u00a0"]:
+            for ctx in ["L%p", "L%%", "L\\n", "%pL%s", "L\\101L", "%p L", "LL%{fid}"]:
+                out.append((P("-printf '" + ctx.replace("L", lit) + "'"), "non-ascii-literal"))
         for _ in range(5000 if tier == "quick" else 200000):
             n = rng.randint(1, 60)
-            s = "".join(rng.choice(C14_ALPHABET + list("abcdDFghHiklmMPsStuUyYZ {}-") + ["{fid}", "{projid}", "{xattr:"]) for _ in range(n))
+            s = "".join(rng.choice(C14_ALPHABET + list("abcdDFghHiklmMPsStuUyYZ {}-é→") + ["{fid}", "{projid}", "{xattr:", "xattr:"]) for _ in range(n))
             out.append((P("-printf \"" + s.replace('"', "") + "\""), "random"))
         return out
 
@@ -953,8 +1065,10 @@ class C15(Prop):
                     items.append("%s %s" % (rng.choice(["-name", "-iname", "-path", "-ipath"]), rng.choice(pats)))
                 elif r < 0.8:
                     items.append(rng.choice(["-print", "-print0", "-fprint o1", "-fprint o2", "-fprint0 o1", "-fprintf o3 '%p'", "-printf '%s\\n'", "-print-file-fid"]))
-                else:
+                elif r < 0.93:
                     items.append("%s %s%d" % (rng.choice(gen.TIME_KW), gen.sign(rng), rng.randint(0, 50)))
+                else:
+                    items.append(rng.choice(["-depth", "-threads %d" % rng.randint(1, 9)]))
             s = items[0]
             for w in items[1:]:
                 s += rng.choice([" ", " -o ", " -a "]) + w
@@ -969,6 +1083,29 @@ class C15(Prop):
         out.append((PC("-false"), "shift"))
         out += [(c, "other-process-repeat") for c, _ in base] * 2
         return out
+
+
+    def sequences(self, tier, rng):
+        """compile / sleep past a second boundary / compile again, all in one process"""
+        tt = ["-mmin +5 -amin -10 -o -ctime 1 -name x", "-amin +1s -print", "-mtime -2 -fprint o -o -atime 3"]
+        seq = []
+        for t in tt:
+            seq.append(PC(t))
+        seq.append("Z 1100")
+        for t in tt:
+            seq.append(PC(t))
+        seq.append("Z 1100")
+        seq.append(PC(tt[0]))
+        # a compile that fails after a time test was translated, then a good one a second later
+        seq.append(PC("-mmin -5 -ls"))
+        seq.append(PC("( -name core -o -atime +30 ) -printf '%p %M\\n'"))
+        seq.append("Z 1100")
+        seq.append(PC("-mmin -5"))
+        seq.append(PC("-name '*.c' -threads 4 -print"))
+        seq.append(PC("-name '*.c' -threads 4 -print"))
+        seq.append(PC("-type f -depth"))
+        seq.append(PC("-type f -depth"))
+        return [seq]
 
     def nontrivial(self, case, line):
         return line.count("(%lf3:") >= 2 or "quotient" in line
@@ -1064,6 +1201,13 @@ class C17(Prop):
         out += [("PC " + c[2:] + " " + hx("/d"), "C05-corpus") for c, _ in c5]
         for u in ["Byte", "Word", "Block", "KiloByte", "MegaByte", "GigaByte", "TeraByte"]:
             out.append(("TC 0 - 2f T Size Gt %s 18446744073709551615" % u, "size-overflow"))
+        for nm in [120, 126, 127, 128, 200]:
+            names = " -o ".join("-name n%d" % i for i in range(nm))
+            out.append((PC("( %s ) -print0" % names), "many-resources"))
+            out.append((PC(" -o ".join("-fprint out%d.txt" % i for i in range(nm * 2))), "many-resources"))
+        for v in ["40000000644", "100000000000", "37777777777", "40000000111", "7777777777777777777777777", "00000000000000644"]:
+            for pre in ["", "-", "/"]:
+                out.append((PC("-perm %s%s" % (pre, v)), "octal-overflow"))
         return out
 
     def nontrivial(self, case, line):
@@ -1149,7 +1293,7 @@ class C19(Prop):
         for i in range(n):
             d = rng.choice([1, 2, 3, 4, 6, 8, 12])
             out.append(("T " + gen.tree(rng, d, True, unsupported=0.1, actions=0.35), "tree-depth<=%d" % d))
-        els = ["X Newline", "L S61", "F Name", "X TabHorizontal"]
+        els = ["X Newline", "L S61", "F Name", "X TabHorizontal", "X Ascii 10", "L Sa"]
         for k in range(0, 4):
             for combo in itertools.product(els, repeat=k):
                 f = "%d%s" % (k, "".join(" " + e for e in combo))
@@ -1183,7 +1327,8 @@ class C19(Prop):
 
 # ------------------------------------------------------------------------------------------- C20
 
-HOSTILE_PATHS = ["/dev/mdt0", "/", "", "a b", "x\"y", "back\\slash", "q\\", "\"", "é☃", "~a~%", "(;#|", "new\nline", "t\tab", "z" * 10000,
+HOSTILE_PATHS = ["lipe", "find", "lambda", "#t", "0", "mdt0", "let*", "/mnt/éé\"x", "/日本語\\mdt0", "été \"2024\"/mdt", "💾\"", "/mnt/lustré\\mdt0",
+                 "/dev/mdt0", "/", "", "a b", "x\"y", "back\\slash", "q\\", "\"", "é☃", "~a~%", "(;#|", "new\nline", "t\tab", "z" * 10000,
                  "\") (system \"id\") (\""]
 
 
@@ -1202,6 +1347,8 @@ class C20(Prop):
             ws = gen.expr_words(rng, rng.randint(0, 3), hostile=0.1)
             if dic and rng.random() < 0.3:
                 ws = ws + [rng.choice(["-name", "-iname", "-pool", "-fprint"]), "'" + rng.choice(dic).replace("'", "") + "'"]
+            elif rng.random() < 0.2:
+                ws = ws + ["-name", rng.choice(["mdt0", "lipe", "/"])]
             k = rng.randint(2, 5)
             paths = [rng.choice(HOSTILE_PATHS) for _ in range(k)]
             r = rng.random()
